@@ -350,7 +350,7 @@ theorem replica_reopens (C : Crypto) (hC : TreeStore.HashWF C) (hT : TreeStore.T
         ∧ s2.1.tree.byteLength = Offsets.psum bs (HashReq.lenAfter n₁ (ReplicaReopen.exchanges acts))
         ∧ (∀ i, HashReq.fetched (ReplicaReopen.exchanges acts) i = true → (s2.1.getBlock s2.2 i).result = .ok (some (bs.getD i [])))
         ∧ (∀ i, HashReq.fetched (ReplicaReopen.exchanges acts) i = false → (s2.1.getBlock s2.2 i).result = .ok none) := by
-  obtain ⟨c, j, e1, e2, e3, e4, e5⟩ := ReplicaReopen.init_replica C pk hpk
+  obtain ⟨c, j, e1, e2, e3, e4, e5, e6⟩ := ReplicaReopen.init_replica C pk hpk
   refine ⟨c, j, e1, ?_⟩
   intro d st1 s2
   have hsz := Growth.size_extract bs n₁ hn
@@ -358,7 +358,7 @@ theorem replica_reopens (C : Crypto) (hC : TreeStore.HashWF C) (hT : TreeStore.T
     rw [hsz, Growth.psum_extract bs n₁ hn n₁ (Nat.le_refl _)]
     have := Offsets.psum_mono bs hn; omega⟩
   have hver' : C.verify c.publicKey (Growth.signableAt C bs n₁ c.tree.fork) sig = true := by rw [e2, e3]; exact hver
-  obtain ⟨r1, r2, r3, r4⟩ := ReplicaReopen.rp_first C hC hT bs hs n₁ h0 hn c d hfresh ⟨_, _, e5⟩ sig hsl hver'
+  obtain ⟨r1, r2, r3, r4⟩ := ReplicaReopen.rp_first C hC hT bs hs n₁ h0 hn c d hfresh ⟨_, _, e5, e6 bs⟩ sig hsl hver'
   rw [e3] at r1 r2 r3 r4
   obtain ⟨q1, q2⟩ := ReplicaReopen.playR_rp C hC hT bs pk 0 acts n₁ _ _ _ r2 h0 (by rw [r3, e2]) r4 hok
   refine ⟨r1, q2, q1.rep.closed.sparse.length, q1.rep.bytes, fun i hi => ?_, fun i hi => ?_⟩
